@@ -404,7 +404,7 @@ func c19Run(c *Ctx) {
 				pred := w.Block().Preds[i]
 				good := false
 				for _, dc := range DomCondsBlock(pred) {
-					if call, ok := dc.V.(*ssa.Call); ok && dc.Pol && FuncIs(call.Call.StaticCallee(), serverPath, "compareAddr") {
+					if call, ok := dc.V.(*ssa.Call); ok && dc.Pol && isCompareAddr(c.P, call.Call.StaticCallee()) {
 						a0, a1 := call.Call.Args[0], call.Call.Args[1]
 						isKey := func(v ssa.Value) bool {
 							ex, ok := v.(*ssa.Extract)
@@ -486,7 +486,7 @@ func c19Run(c *Ctx) {
 				under := false
 				for _, dc := range DomConds(r) {
 					call, pol := condCall(dc)
-					if call == nil || !pol || !FuncIs(call.Call.StaticCallee(), serverPath, "compareAddr") {
+					if call == nil || !pol || !isCompareAddr(c.P, call.Call.StaticCallee()) {
 						continue
 					}
 					isKey := func(v ssa.Value) bool {
